@@ -334,6 +334,20 @@ def vec(*args):
     return concat(iters)
 
 
+def rand_linear(linear, num_rand):
+    """
+    Columns of the random variables of a linear map, padded with zero
+    columns if the map was built before later random variables were
+    declared.
+    """
+
+    reduced = csr_matrix(linear[:, :num_rand])
+    if reduced.shape[1] < num_rand:
+        reduced.resize((reduced.shape[0], num_rand))
+
+    return reduced
+
+
 class Model:
     """
     The Model class creates an LP model object.
@@ -1499,7 +1513,7 @@ class Affine:
 
         size = self.size
         num_rand = self.model.vars[-1].last
-        reduced_linear = self.linear[:, :num_rand]
+        reduced_linear = rand_linear(self.linear, num_rand)
         num_dec = rc_model.last
 
         raffine = Affine(rc_model,
@@ -2162,7 +2176,7 @@ class Affine:
                 raffine = raffine.reshape((raffine.size, 1))
 
                 rvar_last = other.model.vars[-1].last
-                reduced_linear = other.linear[:, :rvar_last]
+                reduced_linear = rand_linear(other.linear, rvar_last)
                 trans_sparray = np.array([line for line in reduced_linear])
 
                 raffine = raffine * array_to_sparse(trans_sparray)
@@ -2226,7 +2240,7 @@ class Affine:
                 self_flat = self.reshape(self.size)
                 affine_temp = (csr_temp @ self_flat).reshape((temp.size,
                                                               other.size))
-                raffine = affine_temp @ other.linear[:, :num_rand]
+                raffine = affine_temp @ rand_linear(other.linear, num_rand)
 
                 return RoAffine(raffine, affine, other.model)
             elif self.model.mtype in 'SM' and other.model.mtype in 'VR':
@@ -2254,7 +2268,7 @@ class Affine:
                 other_flat = other.reshape(other.size)
                 affine_temp = (csr_temp @ other_flat).reshape((temp.size,
                                                                self.size))
-                raffine = affine_temp @ self.linear[:, :num_rand]
+                raffine = affine_temp @ rand_linear(self.linear, num_rand)
 
                 roaffine = RoAffine(raffine, affine, self.model)
 
